@@ -38,14 +38,14 @@ def rbytes(rng, maxlen=8):
 
 
 def printable_schema(rng):
-    opts = gen.rand_schema(rng, maxdepth=3, p_flags=0.3, allow=("int", "float", "bool", "str", "sec", "int", "str", "sec", "ptr"))
+    opts = gen.rand_schema(rng, maxdepth=3, p_flags=0.3, allow=("int", "float", "bool", "str", "sec", "int", "str", "sec", "ptr"), p_simple=0.12)
 
     def clean(os):
         res = []
         for o in os:
             fl = o.flags & ~(DEPRECATED | gen.DROP)
             # pointer options keep the callbacks that let a text give them a value; they have no printed form (F35)
-            res.append(Opt(o.name, o.ty, fl, o.default, "pf" if o.ty == "ptr" else "-", clean(o.subs)))
+            res.append(Opt(o.name, o.ty, fl, o.default, "pf" if o.ty == "ptr" else ("s" if "s" in o.cbs and o.ty != "sec" else "-"), clean(o.subs)))
         return res
     return clean(opts)
 
